@@ -3,7 +3,9 @@ import z3
 
 from pyvc import models, smt
 from pyvc.smt import NONE, Ref
-from pyvc.spec import Interference, RaisesClause, Spec
+from pyvc.spec import Clause, Interference, RaisesClause, Spec
+
+Clause_ = Clause.of
 from pyvc.values import V, coerce, fresh, fresh_name, mk_bool, mk_int, mk_none, obj, parse_ty, Ty, ANY, BOOL, PY
 
 S = 'bubus/service.py'
@@ -369,3 +371,72 @@ def install(spec: Spec):
                                ('inflight_nonneg', 'task_done_calls <= len(dequeued)', ['C15']),
                                ('queue_accounting', 'self.event_queue.q_unfinished >= len(self.event_queue.q_items) + (len(dequeued) - task_done_calls)', ['C15'])]}},
             ensures=[('stopped', 'not self._is_running', ['C16'])])
+
+    # ------------------------------------------------------------------ results are never removed, terminal results never change (rely of every bus function;
+    # its guarantee side is EventResult.update's call-site pre-condition `not already terminal`, C08)
+    RESULT_RELY = [
+        ('terminal_results_frozen', "forall(lambda r: implies(old(r.status) == 'completed' or old(r.status) == 'error', r.status == old(r.status) and r.error is old(r.error) "
+                                    "and r.result is old(r.result) and r.completed_at is old(r.completed_at)), 'EventResult')", []),
+        ('started_results_owned', "forall(lambda r: implies(old(r.status) == 'started', r.status == 'started'), 'EventResult')", []),
+        ('started_at_set_once', "forall(lambda r: implies(old(r.started_at) is not None, r.started_at is old(r.started_at)), 'EventResult')", []),
+        ('results_never_removed', "forall(lambda e, k: implies(k in old(e.event_results), k in e.event_results and e.event_results[k] is old(e.event_results)[k]), 'BaseEvent', 'str')", []),
+        ('result_identity_fields', "forall(lambda r: r.handler_id == old(r.handler_id) and r.result_type is old(r.result_type) and r.timeout == old(r.timeout), 'EventResult')", []),
+    ]
+    spec.interference['handlers'] = Interference('handlers', havoc=['*'], keep=spec.interference['default'].keep + ['event_timeout', 'event_result_type'],
+                                                  rely=spec.interference['default'].rely + [Clause_(c) for c in RESULT_RELY])
+
+    spec.ghosts['invoked'] = parse_ty('int')      # handler invocations started by this task (task-owned)
+
+    def _is_arg_of_create_task(ex, n):
+        import ast as _ast
+        for c in _ast.walk(ex.fn_node):
+            if isinstance(c, _ast.Call) and _ast.unparse(c.func) in ('asyncio.create_task',) and c.args and c.args[0] is n:
+                return True
+        return False
+
+    INVOKE_PRE = [
+        ('context_is_this_handler', "ctx('current_event') is event and ctx('inside_handler') and ctx('current_handler_id') == hid(self, handler)", ['C09']),
+        ('marked_started_before_invocation', "hid(self, handler) in event.event_results and event.event_results[hid(self, handler)].started_at is not None", ['C01']),
+        ('lock_held', "ctx('holds_global_lock')", ['C06']),
+    ]
+
+    def handler_pre(ex):
+        for label, expr, tags in INVOKE_PRE:
+            ex.oblige('callsite:handler(event)/requires', label, ex.spec_bool(expr, dict(ex.st.env)), tags)
+        ex.ghost_set('invoked', mk_int(ex.ghost('invoked').term + 1))
+
+    from pyvc import models as _models
+    _async_handler = _models.user_call('handler', pre=handler_pre, raises=('Exception', 'CancelledError'))
+    _sync_handler = _models.user_call('handler', pre=handler_pre, raises=('Exception',), is_async=False, sync_havoc=True)
+
+    def handler_call_model(ex, n, awaited, recv=None):
+        ex.eval(n.args[0])
+        if _is_arg_of_create_task(ex, n):
+            return _async_handler(ex, n, False)
+        return _sync_handler(ex, n, False)
+
+    HR = 'event.event_results[hid(self, handler)]'
+    spec.fn('EventBus.execute_handler', file=S, qual='EventBus.execute_handler', is_async=True, interference='handlers',
+            params={'self': 'EventBus', 'event': 'BaseEvent', 'handler': 'Handler', 'timeout': 'opt[real]'}, returns='any',
+            requires=[('lock_held', "ctx('holds_global_lock')", ['C06']), ('in_loop', 'loop_running()', [])],
+            modifies=[('event_results', '*'), ('status', '*'), ('result', '*'), ('error', '*'), ('started_at', '*'), ('completed_at', '*'), ('_handler_completed_signal', '*'),
+                      ('ev_set', '*'), ('task_done', '*'), ('task_cancel_requested', '*')],
+            ghost_modifies=['invoked'],
+            callsites={'handler(event)': {'model': handler_call_model, 'ghost_writes': ['invoked'], 'suspends': True}},
+            ensures=[
+                ('invoked_once', 'invoked == old(invoked) + 1', ['C01']),
+                ('result_recorded', HR + ".status == 'completed' or " + HR + ".status == 'error'", ['C01', 'C12']),
+            ],
+            raises=[
+                RaisesClause('RuntimeError', label='already_started', tags=['C01'], origin='raise@',
+                             when=HR.replace('event.', 'old(event).') if False else None,
+                             ensures=[('not_invoked_again', 'invoked == old(invoked)', ['C01'])]),
+                RaisesClause('Exception', label='handler_error', tags=['C11'], origin='user:handler',
+                             ensures=[('invoked_once', 'invoked == old(invoked) + 1', ['C01']),
+                                      ('error_recorded', HR + ".status == 'error' and " + HR + '.error is raised', ['C11'])]),
+                RaisesClause('TimeoutError', label='handler_timeout', tags=['C10'], origin='raise@',
+                             ensures=[('timeout_recorded', HR + ".status == 'error' and " + HR + '.error is raised', ['C10'])]),
+                RaisesClause('CancelledError', label='interrupted', tags=['C10', 'C16']),
+                RaisesClause('ValueError', label='not_callable', origin='raise@'),
+            ])
+    spec.methods[('EventBus', 'execute_handler')] = 'EventBus.execute_handler'
